@@ -114,7 +114,10 @@ func (s *serviceImpl) Add(obj Actor) (index uint32, err error) {
 		return
 	}
 	if err != nil {
-		s.objects[index] = nil
+		// the object could not start: it is not part of the service
+		// (a nil entry would make a later Remove panic).
+		delete(s.objects, index)
+		delete(s.boxes, index)
 	} else {
 		s.objects[index] = obj
 		s.boxes[index] = NewMailBox(obj)
